@@ -348,3 +348,10 @@ for _pid in ('C09', 'C10', 'C11', 'C12', 'C13'):
     PROPS[_pid]['pyvc'] = list(PROPS[_pid]['pyvc']) + CFG_INIT_JOBS
     PROPS[_pid]['level_text'] = PROPS[_pid]['level_text'].replace(' The rest of the chain is only covered by the bounded stand-in: ', ' ' + CFG_INIT_TEXT + 'The rest of the chain is only covered by the bounded stand-in: ', 1)
     PROPS[_pid]['trusted_base'] = list(PROPS[_pid].get('trusted_base', [])) + ['`CFG(...)` at the call sites is the model of contracts/cfg.py (cfg_ctor); that CFG.__init__ satisfies this model is proved in contracts/cfg_init.py for the argument shapes listed there (the correspondence of the two formulations is word for word, by inspection); `_productions` keeps the object it is given (set or list)']
+
+# the PDA constructor: proved once (contracts/pda_init.py), listed under the properties whose proved functions build PDAs with it
+PDA_INIT_JOBS = [('contracts.pda_init', 'PDA.__init__#' + k) for k in ('full', 'no-transitions-no-finals', 'start-only', 'nothing')]
+for _pid in ('C11', 'C13'):
+    PROPS[_pid]['pyvc'] = list(PROPS[_pid]['pyvc']) + PDA_INIT_JOBS
+    PROPS[_pid]['level_text'] = PROPS[_pid]['level_text'].replace(' The rest of the chain is only covered by the bounded stand-in: ', ' Deductive for PDA.__init__ in the four argument shapes the library uses (all seven arguments; without transition function and final states; start state and start stack symbol only; nothing): the new PDA has exactly the given states plus the start and final states, the given input symbols, the given stack alphabet plus the start stack symbol, the transitions of the given transition function, and the given start state, start stack symbol and final states. The rest of the chain is only covered by the bounded stand-in: ', 1)
+    PROPS[_pid]['trusted_base'] = [t.replace('the PDA constructor is modelled, not verified; ', 'the PDA constructor is proved to satisfy its model in contracts/pda_init.py; ') for t in PROPS[_pid]['trusted_base']]
